@@ -286,7 +286,7 @@ theorem mem_contrib_iff (e : EpData) (d : IpSetData Sel) (m : Member) :
       split at hp2
       · rename_i hcond
         cases hp2
-        exact ⟨p, hp1, hcond.1, hcond.2, c, hc, (hmk c p).symm⟩
+        exact ⟨p, hp1, hcond.1, hcond.2, c, hc, hmk c p⟩
       · cases hp2
     · rintro ⟨p, hp1, hn, hm, c, hc, rfl⟩
       refine ⟨(protoFrom p.proto, p.port), ⟨p, hp1, ?_⟩, c, hc, hmk c p⟩
